@@ -306,6 +306,15 @@ func ruleR26(c *Ctx) {
 						if v := suspect(x.Args[0]); v != nil {
 							sink("R", v, "stores the data pointer of", x, fs)
 						}
+					case name == "sync.Pool.Put" && len(x.Args) == 1:
+						// a pooled buffer is written by whoever takes it next
+						a := ast.Unparen(x.Args[0])
+						if ue, ok := a.(*ast.UnaryExpr); ok && ue.Op == token.AND {
+							a = ue.X
+						}
+						if v := suspect(a); v != nil {
+							sink("R", v, "hands to a pool the slice", x, fs)
+						}
 					default:
 						// passing a suspect slice to a callee that writes through that parameter
 						var w map[int]bool
@@ -371,6 +380,9 @@ func ruleR26(c *Ctx) {
 					}
 				case *ast.KeyValueExpr:
 					if v := suspect(x.Value); v != nil {
+						if localStackEntry(c, u, x) {
+							break // an entry of a work stack that lives and dies with this call
+						}
 						sink("R", v, "stores in a composite literal the slice", x, fs)
 					}
 				}
@@ -564,6 +576,77 @@ func ruleR26(c *Ctx) {
 	c.r.note("R26: %d slices captured by closures that outlive the call", nEsc)
 	c.r.note("R26: %d write sinks and %d retention sinks on slices that may alias a key argument, in %d functions reachable from byte-keyed entry points", nW, nR, len(units))
 	c.r.floor("R26", 5, "alias sinks", "C13")
+	c.r26UserCodecWrites(probe, suspect)
+}
+
+// r26UserCodecWrites – the write half of C13 for the trees whose keys are encoded by a codec the
+// user supplies (compound trees): what such a Transform returns may be the caller's own bytes (a
+// pass-through codec over a []byte field), so the library must not write through it either – an
+// append in place, a copy into it, an indexed store. Keeping a reference is this tree kind's
+// documented behaviour and is not examined here.
+func (c *Ctx) r26UserCodecWrites(probe map[*types.Var]bool, suspect func(ast.Expr) *types.Var) {
+	m := c.m
+	info := m.Info
+	nW := 0
+	for _, tk := range m.Trees {
+		if !isCompoundKind(tk) {
+			continue
+		}
+		var roots []*FuncUnit
+		for _, mn := range []string{"Insert", "Search", "Delete", "Prefix", "Range"} {
+			if u := tk.Methods[mn]; u != nil {
+				roots = append(roots, u)
+			}
+		}
+		reach := c.reachableFrom(roots)
+		for _, u := range c.sortedUnits() {
+			if !reach[u] || u.Body == nil {
+				continue
+			}
+			top := u
+			for top.Parent != nil {
+				top = top.Parent
+			}
+			if top.Recv != tk.Name {
+				continue // shared helpers are judged with the byte-keyed kinds
+			}
+			props := []string{"C13", "C09"}
+			fl := c.e.flow(u)
+			report := func(v *types.Var, how string, node ast.Node, fs *FactSet) {
+				nW++
+				key := fmt.Sprintf("%s %s %s", u.Name, how, v.Name())
+				if fs.isFresh(v) {
+					c.r.ok("R26", key, m.pos(node.Pos()), v.Name()+" is known to refer to memory allocated by the library (copy) on every path", props...)
+					return
+				}
+				c.r.bad("R26", key, m.pos(node.Pos()), fmt.Sprintf("%s is what the user's key codec returned and may be the caller's own bytes (a codec that passes a []byte field through): writing here changes the caller's memory – an append writes into the spare capacity of the caller's backing array", v.Name()), props...)
+			}
+			fl.walk(func(n ast.Node, fs *FactSet, stmt ast.Node, b *cfg.Block) {
+				switch x := n.(type) {
+				case *ast.CallExpr:
+					switch {
+					case isBuiltinCall(info, x, "append") && len(x.Args) > 0:
+						if v := suspect(x.Args[0]); v != nil {
+							report(v, "append to", x, fs)
+						}
+					case (isBuiltinCall(info, x, "copy") || isBuiltinCall(info, x, "clear")) && len(x.Args) > 0:
+						if v := suspect(x.Args[0]); v != nil {
+							report(v, "copy into", x, fs)
+						}
+					}
+				case *ast.AssignStmt:
+					for _, l := range x.Lhs {
+						if ie, ok := ast.Unparen(l).(*ast.IndexExpr); ok {
+							if v := suspect(ie.X); v != nil {
+								report(v, "indexed store into", x, fs)
+							}
+						}
+					}
+				}
+			})
+		}
+	}
+	c.r.note("R26: %d write sinks on codec results in trees with a user-supplied codec", nW)
 }
 
 // R17 COLLBUF – discipline of the tree-lifetime collation buffer.
@@ -812,4 +895,98 @@ func resliceSource(info *types.Info, body ast.Node, v *types.Var) *types.Var {
 		return nil
 	}
 	return from
+}
+
+// localStackEntry: the key-value element belongs to a composite literal that is appended to a local
+// slice of this function which is only ever appended to, resliced, indexed and measured (a work
+// stack): what the literal holds is not retained beyond the call.
+func localStackEntry(c *Ctx, u *FuncUnit, kv *ast.KeyValueExpr) bool {
+	info := c.m.Info
+	var stackVar *types.Var
+	ast.Inspect(u.Body, func(n ast.Node) bool {
+		as, ok := n.(*ast.AssignStmt)
+		if !ok || len(as.Lhs) != 1 || len(as.Rhs) != 1 {
+			return true
+		}
+		call, ok := ast.Unparen(as.Rhs[0]).(*ast.CallExpr)
+		if !ok || !isBuiltinCall(info, call, "append") || len(call.Args) < 2 {
+			return true
+		}
+		v := identVar(info, as.Lhs[0])
+		if v == nil || identVar(info, call.Args[0]) != v {
+			return true
+		}
+		for _, a := range call.Args[1:] {
+			if lit, ok := ast.Unparen(a).(*ast.CompositeLit); ok {
+				for _, el := range lit.Elts {
+					if el == ast.Expr(kv) {
+						stackVar = v
+					}
+				}
+			}
+		}
+		return true
+	})
+	if stackVar == nil || stackVar.IsField() || u.Body == nil || stackVar.Pos() < u.Body.Pos() || stackVar.Pos() > u.Body.End() {
+		return false
+	}
+	// every use of the stack keeps it local
+	okAll := true
+	var stack []ast.Node
+	ast.Inspect(u.Body, func(n ast.Node) bool {
+		if n == nil {
+			stack = stack[:len(stack)-1]
+			return true
+		}
+		stack = append(stack, n)
+		id, ok := n.(*ast.Ident)
+		if !ok || info.Uses[id] != types.Object(stackVar) || len(stack) < 2 {
+			return true
+		}
+		switch p := stack[len(stack)-2].(type) {
+		case *ast.IndexExpr:
+			if p.X != ast.Expr(id) {
+				okAll = false
+			}
+		case *ast.SliceExpr:
+			if p.X != ast.Expr(id) {
+				okAll = false
+			} else if len(stack) >= 3 {
+				// q[:n] only as the new value of q itself
+				if as, isAs := stack[len(stack)-3].(*ast.AssignStmt); !isAs || len(as.Lhs) != 1 || identVar(info, as.Lhs[0]) != stackVar {
+					okAll = false
+				}
+			}
+		case *ast.CallExpr:
+			switch {
+			case isBuiltinCall(info, p, "len"), isBuiltinCall(info, p, "cap"):
+			case isBuiltinCall(info, p, "append") && len(p.Args) > 0 && p.Args[0] == ast.Expr(id):
+				if len(stack) >= 3 {
+					if as, isAs := stack[len(stack)-3].(*ast.AssignStmt); !isAs || len(as.Lhs) != 1 || identVar(info, as.Lhs[0]) != stackVar {
+						okAll = false
+					}
+				}
+			default:
+				okAll = false
+			}
+		case *ast.AssignStmt:
+			isLhs := false
+			for _, l := range p.Lhs {
+				if l == ast.Expr(id) {
+					isLhs = true
+				}
+			}
+			if !isLhs {
+				okAll = false
+			}
+		case *ast.RangeStmt:
+			if p.X != ast.Expr(id) {
+				okAll = false
+			}
+		default:
+			okAll = false
+		}
+		return true
+	})
+	return okAll
 }
